@@ -48,7 +48,7 @@ func GridSampler_checkAndNudgePoints(image *gozxing.BitMatrix, points []float64)
 			points[offset+1] = 0.0
 			nudged = true
 		} else if y == height {
-			points[offset+1] = float64(height)
+			points[offset+1] = float64(height - 1)
 			nudged = true
 		}
 	}
